@@ -101,6 +101,8 @@ def run(ctx):
                         st = gen.text(s_)
                         if st in by_text and by_text[st][0][ai_][0] == "E" and by_text[st][1][ai_][0] == "E":
                             arg_error = True
+                if a[0] == "E" and b[0] == "V" and "CELEvalError" in repr(b[2]):
+                    arg_error = True   # the error object sits inside the returned list / map
                 if arg_error:
                     # one root cause: a function that RETURNS an error object (matches() with a bad pattern, `in`)
                     # is an argument of another function, which the compiled runner calls with that object
